@@ -31,6 +31,7 @@ FLOORS = {
 }
 FLOORS['quick']['declared:rowcol'] = 30
 FLOORS['quick']['failed_builds'] = 50
+FLOORS['quick']['cells_built_before_the_failing_build'] = 100
 FLOORS['quick']['graph_exports'] = 20
 FLOORS['quick']['real_book_cases'] = 20
 FLOORS['quick']['formula_cells_overwritten'] = 100
@@ -224,6 +225,11 @@ def one_workbook(ctx, spec, meta, order, config='mem', rng=None):
     before = ctx.counters.get('read_events', 0)
     base = {}
     poison = spec.get('poison')
+    for a in spec.get('prebuild') or ():
+        # (cells which are in the model before the build that fails: evaluating a cell which that build left
+        # queued then builds nothing new)
+        wb.outcome(comp.evaluate, a)
+        ctx.count('cells_built_before_the_failing_build')
     if poison:
         # a build that fails part-way (reference into a linked workbook, after two good precedents): the
         # cells built so far must still get their edges when the model is used afterwards
@@ -241,6 +247,11 @@ def one_workbook(ctx, spec, meta, order, config='mem', rng=None):
                 spelled = coord_.lower()
             ctx.count('evaluate_by_another_spelling_after_a_failed_build', spelled != a)
         base[a] = wb.outcome(comp.evaluate, spelled)
+        if poison:
+            # the public call has returned: what it read has its edge now, not only after some later build
+            for key, msg, x in check_read_edges(ctx, comp):
+                STATE['found'].append((key + '/when-evaluate-returned', msg + f' [after evaluate({spelled!r})]', x))
+            STATE['reads'] = set()
         if spec.get('export_at') == k:
             # exporting the graph must not disturb the live graph
             o = wb.outcome(comp.export_to_gexf, f'{ctx.tmpdir}/g.gexf')
@@ -326,6 +337,8 @@ def run(ctx):
             spec['sheets'][0][1]['A20'] = (f'={c1}+{c2}+{bad}', f'={bad}+{c1}+{c2}', f'={c1}+{bad}+{c2}')[variant]
             spec['poison'] = f'{first_sheet}!A20'
             spec['poison_cells'] = [f'{first_sheet}!A20', f'{first_sheet}!A21']
+            if (i // 12) % 2:
+                spec['prebuild'] = [a for a in order if a in meta['inputs']]
             order = [a for a in order if a not in spec['poison_cells']]
         if i % 7 == 0:
             spec = dict(spec, export_at=len(order) // 2)
